@@ -1,5 +1,5 @@
 (* C02 — theorems over the mode tables regenerated from /repo/code.go on THIS run (GenC02.Tables). *)
-From C02 Require Import Model Spec Proofs OneForm.
+From C02 Require Import Model Spec Proofs OneForm ReadFrom.
 From GenC02 Require Import Tables.
 
 (* every one of the 15 x 256 table entries is an action the refinement proof covers in that mode *)
@@ -38,6 +38,45 @@ Theorem one_then_rest_now : forall text s' p,
   s_read tables esc text = prepend (rev (code (c_p (s_core s')))) p (s_read tables esc (skipn p text)).
 Proof. intros. apply one_then_rest; try assumption; [exact tables_ok|apply tables_ok2|apply tables_ok2]. Qed.
 Print Assumptions one_then_rest_now.
+
+(* the four bytes cl:read-from-string steps over after the object are skipped by the reader in value mode *)
+Theorem tables_ok4 : table_ok4 tables = true.
+Proof. vm_compute. reflexivity. Qed.
+Print Assumptions tables_ok4.
+
+(* hence, with the current tables: read-from-string by the rule (rfs_s), and as written when called on what
+   is left of the text or with :start and :preserve-whitespace t, reads every text form by form to the read
+   of the whole text *)
+Theorem read_from_string_form_by_form_now : forall pw text,
+  forms_by_start_s tables esc pw text = Some (s_read tables esc text).
+Proof. intros. apply by_start_s; [exact tables_ok|apply tables_ok2|apply tables_ok2|exact tables_ok4]. Qed.
+Print Assumptions read_from_string_form_by_form_now.
+Theorem read_from_string_as_written_now : forall text,
+  forms_by_suffix_m tables esc text = Some (s_read tables esc text) /\
+  forms_by_start_m tables esc true text = Some (s_read tables esc text).
+Proof. intros. apply as_written; [exact tables_ok|apply tables_ok2|apply tables_ok2|exact tables_ok4]. Qed.
+Print Assumptions read_from_string_as_written_now.
+
+(* known finding C02-rfs-start-skip: with :start > 0 and without :preserve-whitespace the loop over the white
+   space indexes the substring with the position in the whole string.  "a bcd e  f" from 2: the form bcd ends
+   at 5, the loop looks at the bytes 7 and 8 (blank, blank) instead of 5, 6 and reports 7: e is lost *)
+Theorem rfs_start_skip_refuted :
+  rfs_m tables esc true [97; 32; 98; 99; 100; 32; 101; 32; 32; 102]%N 2%nat None false = FObj (TLeaf (LTok [98; 99; 100]%N)) 7%nat /\
+  rfs_s tables esc [97; 32; 98; 99; 100; 32; 101; 32; 32; 102]%N 2%nat None false = FObj (TLeaf (LTok [98; 99; 100]%N)) 6%nat /\
+  forms_by_start_m tables esc false [97; 32; 98; 99; 100; 32; 101; 32; 32; 102]%N
+    = Some (ROk [TLeaf (LTok [97]%N); TLeaf (LTok [98; 99; 100]%N); TLeaf (LTok [102]%N)] 10%nat) /\
+  s_read tables esc [97; 32; 98; 99; 100; 32; 101; 32; 32; 102]%N
+    = ROk [TLeaf (LTok [97]%N); TLeaf (LTok [98; 99; 100]%N); TLeaf (LTok [101]%N); TLeaf (LTok [102]%N)] 10%nat.
+Proof. vm_compute. repeat split; reflexivity. Qed.
+Print Assumptions rfs_start_skip_refuted.
+
+(* known finding C02-rfs-position-in-bytes: the position is a byte offset, strings are indexed by characters.
+   "é b": the object ends after 2 bytes = 1 character; the reported position 3 is the character position 2 *)
+Theorem rfs_position_in_bytes_refuted :
+  rfs_m tables esc false [195; 169; 32; 98]%N 0%nat None false = FObj (TLeaf (LTok [195; 169]%N)) 3%nat /\
+  char_pos [195; 169; 32; 98]%N 3%nat = 2%nat /\ ascii [195; 169; 32; 98]%N = false.
+Proof. vm_compute. repeat split; reflexivity. Qed.
+Print Assumptions rfs_position_in_bytes_refuted.
 
 (* the tables are the real ones, not something trivially accepted: a token split over three reads *)
 Theorem tables_nontrivial :
